@@ -61,6 +61,18 @@ def append(eng, xs, x, st, node):
     import os
     if os.environ.get('PYVC_DEBUG'):
         print('append', type(o).__name__, x, type(st.heap.get(getattr(x, 'loc', None))).__name__, getattr(st.heap.get(getattr(x, 'loc', None)), 'view', None), getattr(getattr(o, 'base', None), 'base', None))
+    from .vals import VTuple
+    if isinstance(x, VTuple) and isinstance(o, HRecSeq) and o.cls in C.TUPLE_RECORDS:
+        names = C.TUPLE_RECORDS[o.cls] or list(C.RECORDS[o.cls])
+        if len(names) == len(x.items) and all(n in o.fields for n in names):
+            fields = {}
+            for n, v in zip(names, x.items):
+                seq, p = o.fields[n]
+                if getattr(v, 'ty', None) != p:
+                    raise Undecided('append: element %s of the tuple is %r' % (n, v), node)
+                fields[n] = (Concat(seq, smt.Unit(v.t)), p)
+            st.heap[xs.loc] = HRecSeq(o.cls, fields, Add(o.n, IntV(1)))
+            return True
     if isinstance(x, VRef):
         ox = st.heap.get(x.loc)
         if isinstance(ox, HInst):
